@@ -19,7 +19,8 @@ from ..core import Check, Graph, MachineryError, main
 from . import c20_catalog as cat
 from . import c20_replay as rp
 
-INVS = ["TypeOK", "SameBehaviour", "SameState", "CountersByValue", "NoSharing", "StaysAttached", "OrigOwnsCell1"]
+INVS = ["TypeOK", "LastEntryByValue", "SameBehaviour", "SameState", "CountersByValue", "NoSharing", "StaysAttached",
+        "OrigOwnsCell1"]
 ACTIONS = ("Execute", "Linearize", "SetDefault", "SetSetting", "SetCache", "ClearCache", "Pickle")
 METHODS = ("dumps", "file", "spawn")
 
@@ -33,13 +34,14 @@ def log(msg):
         print(msg, file=sys.stderr, flush=True)
 
 
-def cfg(names, pre, suf, *, shared="{}", dropped="{}", methods=METHODS, props=True, has_default=True):
+def cfg(names, pre, suf, *, shared="{}", dropped="{}", methods=METHODS, props=True, has_default=True,
+        last_from_newest=False):
     s = ("CONSTANTS X = {1, 2}\n DV = {0, 1}\n"
          " ConfNames = {" + ", ".join(f'"{n}"' for n in names) + "}\n"
          f" HasDefault = {'TRUE' if has_default else 'FALSE'}\n"
          f" MaxPre = {pre}\n MaxSuf = {suf}\n"
          " Methods = {" + ", ".join(f'"{m}"' for m in methods) + "}\n"
-         f" Shared = {shared}\n Dropped = {dropped}\n"
+         f" Shared = {shared}\n Dropped = {dropped}\n LastFromNewest = {'TRUE' if last_from_newest else 'FALSE'}\n"
          "SPECIFICATION Spec\nCHECK_DEADLOCK FALSE\n")
     for i in INVS:
         s += f"INVARIANT {i}\n"
@@ -134,6 +136,13 @@ def run(ck: Check):
             raise MachineryError(f"Lifecycle with {mode}={a} should be refuted ({want or 'SameBehaviour/...'}) "
                                  f"but TLC reported {r.violated}")
         refuted[f"{mode}:{a}"] = r.violated
+    # ... and a projection that restores "the newest entry" as the last entry of the cache (history needed:
+    # execute(x1); execute(x2); linearize(x1); pickle - prefix depth 3)
+    r = ck.tlc("Lifecycle", cfg(["mem"], 3, 0, props=False, methods=("dumps",), last_from_newest=True),
+               workers=1, timeout=600, count=False, coverage=False, expect_ok=False)
+    if r.violated != "LastEntryByValue":
+        raise MachineryError(f"Lifecycle with LastFromNewest should violate LastEntryByValue, TLC reported {r.violated}")
+    refuted["last-from-newest"] = r.violated
     ck.extra["spec_mutations_refuted"] = refuted
     log(f"non-vacuity {time.time() - t_start:.0f}s")
 
@@ -141,18 +150,21 @@ def run(ck: Check):
     if ck.thorough:
         groups = [(["simple", "mem"], 2, 2), (["hdf-snapshot", "hdf-shared"], 2, 2),
                   (["jacinrun", "jacinrun-hdf", "nocache", "db"], 2, 2),
-                  (["stateful"], 3, 2)]
+                  (["stateful"], 3, 2), (["mem"], 3, 1, "mem-p3"), (["hdf-snapshot"], 3, 0, "hdf-p3")]
     else:
-        groups = [(["simple", "mem", "hdf-snapshot", "hdf-shared", "jacinrun", "stateful", "nocache", "db"], 2, 1)]
+        # mem-p3: prefixes of depth 3 (Pickle is the last step): the shortest history after which the last
+        # written entry of a keep-everything cache is not its newest one
+        groups = [(["simple", "mem", "hdf-snapshot", "hdf-shared", "jacinrun", "stateful", "nocache", "db"], 2, 1),
+                  (["mem"], 3, 0, "mem-p3")]
     graph_of = {}
     ck.extra["graphs"] = []
-    for names, p_, s_ in groups:
+    for names, p_, s_, *key in groups:
         ck.tlc("Lifecycle", cfg(names, p_, s_), workers=4, timeout=900, dump=True,
                require_actions=ACTIONS if "simple" in names else ACTIONS[:4] + ("Pickle",))
         g = Graph(ck.work / "Lifecycle.dot")
         (ck.work / "Lifecycle.dot").unlink()
         for n in names:
-            graph_of[n] = g
+            graph_of[key[0] if key else n] = (g, n)
         ck.extra["graphs"].append({"configs": names, "MaxPre": p_, "MaxSuf": s_, "states": len(g.states), "edges": len(g.edges)})
         log(f"graph {names}: {len(g.states)} states {len(g.edges)} edges {time.time() - t_start:.0f}s")
     if ck.thorough:
@@ -176,14 +188,14 @@ def run(ck: Check):
             log(f"deep {group} (3,{s_}) {time.time() - t_start:.0f}s")
 
     # ---- 3. replay on the real objects
-    child = rp.Child()
+    child = rp.Children()
     entries = cat.catalogue()
     tours = {}
 
     def tour_of(conf, banned):
         key = (conf, tuple(sorted(banned)))
         if key not in tours:
-            g = SubGraph(graph_of[conf], conf, banned)
+            g = SubGraph(graph_of[conf][0], graph_of[conf][1], banned)
             paths = g.tour()
             tours[key] = (g, paths)
         return tours[key]
@@ -195,8 +207,17 @@ def run(ck: Check):
     n_paths_total = 0
     exhaustive_done = []
 
-    def replay(entry, gt, conf, n_max=None):
-        """Replay the whole tour (n_max None) or a seeded sample of its behaviours that reach Pickle."""
+    def older_last(g, path):
+        """The behaviour pickles a cache whose last written entry is not its newest one."""
+        for k in path:
+            if g.edges[k][2] == "Pickle":
+                c = g.states[g.edges[k][0]]["cache"][0]
+                return c["hasLast"] and c["hasNew"] and tuple(c["last"]) != tuple(c["newest"])
+        return False
+
+    def replay(entry, gt, conf, n_max=None, select=None):
+        """Replay the whole tour (n_max None) or a seeded sample of its behaviours that reach Pickle
+        (among those satisfying `select`, a predicate on the specification's states along the path)."""
         nonlocal n_paths_total
         banned = set()
         if not entry.has_jac:
@@ -211,12 +232,14 @@ def run(ck: Check):
         if entry.pname is None:
             banned.add("SetDefault")
         g, paths = tour_of(conf, banned)
-        fm = CONFIGS[conf]
+        fm = CONFIGS[graph_of[conf][1]]
         r = rp.Replayer(ck, ad, g, config=conf, file_mode=fm, child=child)
-        if n_max is None:
+        if n_max is None and select is None:
             chosen = list(range(len(paths)))
         else:
-            withp = [i for i, p in enumerate(paths) if has_pickle(g, p)]
+            withp = [i for i, p in enumerate(paths) if has_pickle(g, p) and (select is None or select(g, p))]
+            if n_max is None:
+                n_max = len(withp)
             random.Random(f"{ck.seed}/{entry.name}/{gt}/{conf}").shuffle(withp)
             chosen = sorted(withp[:n_max])
         done = bad = 0
@@ -236,7 +259,7 @@ def run(ck: Check):
             outside.append(dict(rec, grammar=gt))
         report.setdefault(entry.name, {})[f"{gt}/{conf}"] = {"behaviours": done, "of_tour": len(paths), "steps": r.steps,
                                                            "stopped_by_violation": bad}
-        if n_max is None:
+        if n_max is None and select is None:
             exhaustive_done.append(f"{entry.name}/{gt}/{conf}")
         log(f"{entry.name} {gt} {conf}: {done} behaviours, {r.steps} steps, {bad} stopped, {time.time() - t_start:.0f}s")
 
@@ -248,7 +271,14 @@ def run(ck: Check):
         replay(core, cat.JSON, "simple", None)
         replay(core, cat.JSON, "hdf-snapshot", 1500 if T else 150)
         replay(core, cat.JSON, "hdf-shared", 1000 if T else 120)
-        replay(core, cat.JSON, "mem", 300 if T else 40)      # stops at Pickle while D10 stands
+        replay(core, cat.JSON, "mem", 300 if T else 40)
+        # every depth-3 history that leaves the last written entry of the memory cache older than its newest one
+        replay(core, cat.JSON, "mem-p3", 400 if T else None, select=older_last)
+        if T:
+            # the same histories with an HDF5Cache (its restored last entry is reported as an observation)
+            replay(core, cat.JSON, "hdf-p3", 60, select=older_last)
+        for name in ("MDAGaussSeidel", "AnalyticDiscipline", "MDOChain"):
+            replay(next(e for e in entries if e.name == name), cat.JSON, "mem-p3", 24 if T else 8, select=older_last)
         replay(core, cat.SIMPLE, "simple", None if T else 300)
         if T:
             replay(core, cat.SIMPLE, "hdf-snapshot", 600)
@@ -275,7 +305,7 @@ def run(ck: Check):
             if T:
                 n *= 4
             if e.name == "AnalyticDiscipline" or e.name.startswith("Sobieski"):
-                n *= 4   # classes with their own exclusion list / __setstate__
+                n *= 4 if e.name == "AnalyticDiscipline" else 2   # classes with their own exclusion list / __setstate__
             replay(e, gt, conf, max(1, n // e.cost))
         # 3c. shared file on a few other classes (attachment clause / D11)
         for e in [x for x in rest if x.name in ("MDOChain", "MDAGaussSeidel", "AnalyticDiscipline")]:
